@@ -397,6 +397,10 @@ def _spellings_for(tier, seed, level):
             _SP_CACHE[key] = quick + extra
         else:
             _SP_CACHE[key] = gen.spellings(tier, seed, level)
+        # the case-insensitive parts that gen keeps out of the default case_parts (media query keywords only / not / and): each alone, upper and mixed
+        # case, on every sheet (both levels: also lists of two queries, nested @media and @import media lists); texts without such a keyword are
+        # duplicates of the default spelling and skipped
+        _SP_CACHE[key] = _SP_CACHE[key] + [dataclasses.replace(gen.DEFAULT, case=c, case_parts=(part,)) for part in gen.CASE_PARTS_OPTIONAL for c in ('upper', 'mixed')]
     return _SP_CACHE[key]
 
 
@@ -438,8 +442,9 @@ def _run(ctx, name, rule):
                         'rule': rule + '; distinct = (construct-kind label of the sheet, spelling variation) pairs',
                         'samples': [{'sheet': gen.to_json(sheets[0][1]), 'text': gen.render(sheets[0][1])}, {'label': sheets[-1][0], 'text': gen.render(sheets[-1][1])[:400]}],
                         'bound': '%d abstract sheets (%s) x %d spellings for one-construct sheets / %d for two-construct sheets -> %d distinct source texts; each parsed with '
-                                 'default options, with parseComments=False if it has comments, and (single-field spellings) with validate=False'
-                                 % (n, gen.ENUMERATION[tier], nfull, ncore, texts),
+                                 'default options, with parseComments=False if it has comments, and (single-field spellings) with validate=False; the spellings include upper and '
+                                 'mixed case of %s alone (queries with and without a media type, one to three features)'
+                                 % (n, gen.ENUMERATION[tier], nfull, ncore, texts, ' / '.join(gen.CASE_PARTS_OPTIONAL)),
                         'exhaustive': False, 'wall_s': round(time.time() - t0, 1), 'known_class_inputs': {k: v['count'] for k, v in sorted(knownhits.items())}})
 
 
